@@ -35,6 +35,15 @@ structure Daemon where
 
 def Daemon.isEpoll (d : Daemon) : Bool := d.mode == .epoll
 
+/-- MHD_get_timeout64 answers 0 — "do not block in select / poll / epoll_wait": `data_already_pending`,
+    `daemon->resuming`, `have_new`, or (epoll) a non-empty eready list.  (No connection timeouts in this model.)
+    Caveat: in epoll mode the model's `pending` over-approximates `data_already_pending` (`turnWith` also sets it
+    for the timeout scan's direct MHD_connection_handle_idle call); the correspondence run compares this
+    function with the real MHD_get_timeout64 in select mode only, and the theorems about it use the
+    `resuming` / `eready` disjuncts only. -/
+def Daemon.hintZero (d : Daemon) : Bool :=
+  d.pending || d.resuming || !d.newConns.isEmpty || (d.isEpoll && !d.eready.isEmpty)
+
 def setConn (f : Nat → Conn) (c : Nat) (k : Conn) : Nat → Conn :=
   fun i => if i = c then k else f i
 
@@ -257,7 +266,9 @@ def run (g : Guards) : Daemon → List Op → Daemon × List Ev
     let r2 := run g r.1 ops
     (r2.1, r.2 ++ r2.2)
 
-/-- a daemon in mode `m`; `plans c` is the application's script for the connection with index `c` -/
-def Daemon.init (m : Mode) (plans : Nat → Plan) : Daemon := { mode := m, conn := fun c => { plan := plans c } }
+/-- a daemon in mode `m`; `plans c` is the application's script for the first request of the connection
+    with index `c`, `later c` the scripts for the requests that follow on the same connection -/
+def Daemon.init (m : Mode) (plans : Nat → Plan) (later : Nat → List Plan := fun _ => []) : Daemon :=
+  { mode := m, conn := fun c => { plan := plans c, later := later c } }
 
 end Mhd.Susp
